@@ -34,6 +34,8 @@ def run(ctx):
     r63(ctx, api)
     r64(ctx, api)
     r65(ctx, api)
+    from . import callsigs as _cs
+    _cs.general_rules(ctx, 'R6', ['api.ParquetFile', 'api._pre_allocate', 'core.read_row_group', 'core.read_row_group_arrays'])
 
 
 def _class_info(api):
